@@ -241,6 +241,50 @@ def sorted_search(facts, res):
     cursor.compare(facts, res, R, fns[0], fns[1], "the two group mappers", cn, cn)
 
 
+def mapper_exits(facts, res):
+    """C01.7: every way out of a group mapper before the list has been walked is taken only when nothing of the list belongs to any group;
+    the four-parameter overloads otherwise forward (list, groups, working group, the same groups, callback) to the five-parameter ones"""
+    import mapexit
+    R = "C01.7.mapper-exits"
+    n = 0
+    for name in ("TbfMapIndexesAndBlocks", "TbfMapIndexesAndBlocksIndexes"):
+        fns = [f for f in facts.functions if f["name"] == name and not f.get("inst") and tbf.body(f) is not None]
+        five = [f for f in fns if len(f["params"]) == 5]
+        four = [f for f in fns if len(f["params"]) == 4]
+        if len(five) != 1 or len(four) != 1:
+            raise AnalysisBroken("%s: %d five- and %d four-parameter definitions (1 and 1 confirmed by reading)" % (name, len(five), len(four)))
+        fn = five[0]
+        loops = [x for x in kids(tbf.body(fn)) if x.get("k") in ("WhileStmt", "ForStmt")]
+        if len(loops) != 1:
+            raise AnalysisBroken("%s: the walk over the list is not a single top-level loop" % fn["qname"])
+        n += mapexit.decide(facts, fn, res, R, fn["params"][0]["did"], fn["params"][1]["did"], loops[0])
+        after = kids(tbf.body(fn))[kids(tbf.body(fn)).index(loops[0]) + 1:]
+        fw = four[0]
+        calls = [c for c in walk(tbf.body(fw)) if c.get("k") in ("CallExpr", "CXXMemberCallExpr") and tbf.callee_name(c) == name]
+        if len(calls) != 1:
+            res.violation(R, tbf.rel(facts.path_of(fw)), fw["qname"], "forward", fw["l"][1], "the four-parameter %s does not forward to the five-parameter one exactly once (%d calls)" % (name, len(calls)))
+            continue
+        st = calls[0]
+        tbf.link_parents(tbf.body(fw))
+        while st.get("_p") is not None and st.get("_p") is not tbf.body(fw):
+            st = st["_p"]
+        if st.get("k") in ("IfStmt", "WhileStmt", "ForStmt"):
+            res.violation(R, tbf.rel(facts.path_of(fw)), fw["qname"], "forward-guarded", st["l"][1], "the forwarding call of the four-parameter %s is conditional" % name)
+        n += mapexit.decide(facts, fw, res, R, fw["params"][0]["did"], fw["params"][1]["did"], st)
+        args = tbf.call_args(calls[0])
+
+        def ref(a):
+            ds = [y.get("did") for y in walk(a) if y.get("k") == "DeclRefExpr" and y.get("did") in [p["did"] for p in fw["params"]]]
+            return ds[0] if len(set(ds)) == 1 else None
+        want = [fw["params"][0]["did"], fw["params"][1]["did"], fw["params"][2]["did"], fw["params"][1]["did"], fw["params"][3]["did"]]
+        got = [ref(a) for a in args]
+        res.instance(R, fw["qname"] + " forward", facts.loc(calls[0]), "forwards parameters %s" % [([p["name"] for p in fw["params"] if p["did"] == d] or ["?"])[0] for d in got])
+        n += 1
+        if got != want:
+            res.violation(R, tbf.rel(facts.path_of(calls[0])), fw["qname"], "forward-args", calls[0]["l"][1], "the single-tree mapper must forward (list, groups, working group, the same groups, callback); it forwards %s" % got)
+    res.floor(R, n, 4, "mapper exits and forwards")
+
+
 def routing(facts, res, classes):
     R = "C01.5.list-routing"
     n = 0
@@ -294,6 +338,8 @@ def run(res, tier):
     n2 = wrapper_walk(facts, res)
     partition(facts, res)
     sorted_search(facts, res)
+    res.rule("C01.7 mapper exits: the path condition of every return taken before the list is walked implies that no listed source index lies inside any group's index interval (implication decided over all models with indices 0..4, <=2 interactions, <=2 sorted disjoint groups); the single-tree overloads forward (list, groups, working group, same groups, callback) unconditionally")
+    mapper_exits(facts, res)
     try:
         n5 = routing(facts, res, SINGLE_TREE["core"])
     except AnalysisBroken:
